@@ -72,7 +72,7 @@ def _membership(ctx, s, v, name):
     return ctx.ex.as_z3_bool(ctx.ex.B._raw(r[0][1]))
 
 
-@unit("C19.VerifyEnable", "C19", "ngo.utils.parser:VerifyEnable.__call__")
+@unit("C19.VerifyEnable", "C19", "ngo.utils.parser:VerifyEnable.__call__", fallback="verify_enable_bounded")
 def verify_enable(ctx):
     """for every non-empty list of accepted --enable tokens (as a multiset): error iff `none` is combined with
     something; otherwise trait k is enabled iff  all in values or k in values or (default in values and k != duplication)"""
@@ -119,7 +119,7 @@ def verify_enable(ctx):
     ctx.cover("error-path-exists", [z3.BoolVal(len(bad) > 0)])
 
 
-@unit("C19.main", "C19", "ngo.__main__:main")
+@unit("C19.main", "C19", "ngo.__main__:main", fallback="main_wiring")
 def main_wiring(ctx):
     """main(): optimize is called exactly once with the parsed program, IN/OUT = auto-detected iff the option is
     `auto` (`""` -> []), each of the nine keywords bound to `<its own name> in args.enable`; stdout receives exactly
@@ -384,7 +384,7 @@ def optimize_gating(ctx, flags_fixed=None, prefix=""):
     return res
 
 
-@unit("C19.optimize-gating", "C19", "ngo.api:optimize")
+@unit("C19.optimize-gating", "C19", "ngo.api:optimize", fallback="optimize_gating_bounded")
 def optimize_gating_unit(ctx):
     """optimize(): a pass runs only if its own flag is true; every enabled pass is constructed from the current
     program with IN/OUT in the right parameter positions and executed on the current program, in the fixed order;
